@@ -340,10 +340,37 @@ pub fn run(args: &[&str]) -> String {
         Some("eq-ord-hash-disagree:equal values hash differently".to_string())
       } else if y.cmp(&x) != x.cmp(&y).reverse() {
         Some("eq-ord-hash-disagree:Ord not antisymmetric".to_string())
+      } else if x.partial_cmp(&y) != Some(x.cmp(&y)) || (x < y) != (o == "lt") || (x > y) != (o == "gt") || (x <= y) != (o != "gt") {
+        Some(format!("eq-ord-hash-disagree:PartialOrd ({:?}) and Ord ({:?}) disagree", x.partial_cmp(&y), x.cmp(&y)))
+      } else if (x.did() == y.did()) != (x.did().cmp(y.did()) == std::cmp::Ordering::Equal) || x.did().partial_cmp(y.did()) != Some(x.did().cmp(y.did())) {
+        Some("eq-ord-hash-disagree:Eq / PartialOrd / Ord of the DID parts disagree".to_string())
       } else {
         None
       };
       with(format!("{}:{}", o, if e { "E" } else { "N" }), f)
+    }
+    // DIDJwk (did_jwk.rs): whether the JWK inside is acceptable is the third-party JSON layer's business (reply `u:…`, not
+    // compared); what is accepted must be reproduced verbatim, be a plain DID of method jwk, and carry the decoded key
+    ["jwk", h] => {
+      let Some(s) = arg(h) else { return "bad-request".into() };
+      let s2 = s.clone();
+      match std::panic::catch_unwind(move || identity_did::DIDJwk::parse(&s2)) {
+        Err(_) => "panic\t#FAIL:panic:DIDJwk::parse panicked".into(),
+        Ok(Err(_)) => "u:err".into(),
+        Ok(Ok(d)) => {
+          let f = if d.to_string() != s {
+            Some(format!("did-not-verbatim:DIDJwk accepted {:?} and prints {:?}", s, d.to_string()))
+          } else if d.method() != "jwk" {
+            Some(format!("did-jwk-method:{}", d.method()))
+          } else if CoreDID::parse(&s).map(|c| c.to_string() != s).unwrap_or(true) {
+            Some(format!("did-jwk-not-a-plain-did:{:?} is accepted as a did:jwk but is not a plain DID", s))
+          } else {
+            let core: &CoreDID = d.as_ref();
+            did_oracle(&s, core)
+          };
+          with("u:ok".into(), f)
+        }
+      }
     }
     _ => "bad-request".into(),
   }
@@ -538,5 +565,26 @@ pub fn gen(thorough: bool, seed: u64, out: &mut impl Write) {
   }
   for (a, b) in [("did:m:a/x", "did:m:a?x"), ("did:m:a#x", "did:m:a?x"), ("did:m:a", "did:m:a/"), ("did:m:a?", "did:m:a"), ("did:m:a/p?q", "did:m:a/p#q")] {
     writeln!(out, "C10 cmp {} {}", hex(a.as_bytes()), hex(b.as_bytes())).unwrap();
+  }
+  // one DID a proper prefix of the other, the shorter one carrying a path / query / fragment, the longer one continuing
+  // with every character that sorts around the delimiters
+  for tail in ["/path", "?x=1", "#f", "/p?q#f"] {
+    for c in ["-", ".", "%41", "_", "0", "9", ":", "a", "A", "z", "~"] {
+      let (a, b) = (format!("did:example:abc{}", tail), format!("did:example:abc{}def", c));
+      writeln!(out, "C10 cmp {} {}", hex(a.as_bytes()), hex(b.as_bytes())).unwrap();
+      writeln!(out, "C10 cmp {} {}", hex(b.as_bytes()), hex(a.as_bytes())).unwrap();
+      let (a2, b2) = (format!("did:example:abc{}", tail), format!("did:example:abc{}def{}", c, tail));
+      writeln!(out, "C10 cmp {} {}", hex(a2.as_bytes()), hex(b2.as_bytes())).unwrap();
+    }
+  }
+  // did:jwk: valid keys with and without trailing parts, other methods, malformed payloads
+  let jwk_ok = "eyJrdHkiOiJPS1AiLCJjcnYiOiJYMjU1MTkiLCJ1c2UiOiJlbmMiLCJ4IjoiM3A3YmZYdDl3YlRUVzJIQzdPUTFOei1EUThoYmVHZE5yZngtRkctSUswOCJ9";
+  for pre in ["did:jwk:", "did:JWK:", "did:jwk2:", "did:key:", "DID:jwk:", "did:jwk::", " did:jwk:"] {
+    for tail in ["", "#0", "#", "/path", "?versionId=1", "?", "/", ":x", " ", "\n", "%41", "=", "=="] {
+      writeln!(out, "C10 jwk {}", hex(format!("{}{}{}", pre, jwk_ok, tail).as_bytes())).unwrap();
+    }
+  }
+  for body in ["", "e30", "bm90IGpzb24", "eyJrdHkiOiJvY3QiLCJrIjoiQUEifQ", "!!!", "é"] {
+    writeln!(out, "C10 jwk {}", hex(format!("did:jwk:{}", body).as_bytes())).unwrap();
   }
 }
